@@ -123,3 +123,66 @@ SPECS["C07"] = {
          "limits": {"quick": {"timeout": "600s"}, "thorough": {"timeout": "3000s"}}},
     ],
 }
+
+
+TIME_MODEL = ("time.Time is modelled as {set-flag, Unix nanoseconds, nil location}: Unix/UnixNano/Add/Sub/Before/After/Equal/IsZero/Truncate are engine "
+              "intrinsics (years 1678-2262, location and monotonic reading ignored); time.Now is a harness-controlled or fresh non-decreasing symbol")
+
+SPECS["C09"] = {
+    "explanation": "One-step inductive harness on the real MetricAggregator (clock field set in-package to a harness clock): an arbitrary aggregate with one "
+                   "series per metric type (presence symbolic, idle or with pending data), four independent symbolic expiry intervals (any int64: negative, "
+                   "zero, positive), symbolic series timestamps ts <= now < 2^62, then the real flush sequence Flush; Process(observe); Reset. Asserted: every "
+                   "held series is reported in this flush (idle counter 0 with rate 0, idle timer count 0 and no percentiles, idle set empty, gauge last "
+                   "value); it survives Reset iff expiry == 0 or now - ts <= the expiry of ITS type; survivors are zeroed/emptied (gauges untouched) and keep "
+                   "timestamp, source, tags; an expired series leaves no empty name entry. Because the pre-state is arbitrary this covers histories of any "
+                   "length. A history harness (real constructor, one datapoint of a symbolic type at T, three flushes at symbolic non-decreasing times) "
+                   "cross-checks 'reported exactly until and including the first flush more than the expiry after T'.",
+    "bounds": {"quick": "all int64 expiries x 4 types, all 0 <= ts <= now < 2^62; history of 3 flushes", "thorough": "same"},
+    "outside": ["timestamps at or beyond 2^62 (subtraction overflow)", "concurrent ReceiveMap during a flush (single-owner discipline, structural)"],
+    "assumptions": STUBS_COMMON + [MATH_NOTE, TIME_MODEL],
+    "jobs": [
+        {"pkg": "./pkg/statsd", "harness": "pkg/statsd", "mode": "math",
+         "entries": {"quick": ["VerifC09_Step", "VerifC09_Hist", "VerifC09_Twin"]},
+         "reach": {"VerifC09_Step": ["counter-survives", "counter-expired"], "VerifC09_Hist": ["alive-after-3", "expired-in-history"]},
+         "twin": {"VerifC09_Twin": True},
+         "limits": {"quick": {"timeout": "600s"}, "thorough": {"timeout": "600s"}}},
+    ],
+}
+
+
+SPECS["C08"] = {
+    "explanation": "STATISTICS (math mode): the real MetricAggregator.Flush is run on a timer with n symbolic real values, one symbolic integer percentile "
+                   "p in [-100,100]\\{0}, a symbolic sub-metric mask, symbolic sampled count and flush interval. The expectation is computed in the harness from "
+                   "the multiset (sorted by a sorting network: no data-dependent control flow) and k = round(|p|/100*n) (k = n when n = 1, omitted when k = 0): "
+                   "min, max, sum, sum of squares, mean, median, population std-dev (stddev >= 0 and stddev^2 = variance), per-second, count = round(sampled), and "
+                   "for the percentile the count, mean, sum, sum of squares and boundary of the k lowest (p>0) or k highest (p<0) values, with their names "
+                   "(count_<p> ...; strconv.Itoa of the symbolic p is rendered exactly). sort.Float64s is executed from source. All comparisons are exact "
+                   "equalities over the reals, so algebraically equivalent refactorings do not alarm while a rank off by one, n-1 for n or a wrong boundary does. "
+                   "RANK LEMMA (machine mode, IEEE float64): for all integer p in [-100,100] and n in 2..64 the rank the code computes in floating point lies in "
+                   "[0,n] and is a nearest integer of |p|n/100. HISTOGRAM (machine mode): timer tagged gsd_histogram:<items> with symbolic item bytes (parsable "
+                   "or not, via the ParseFloat stub), symbolic values, limits 0/1/2/max: exactly the first min(limit, #parsable) bounds and +Inf, each with the "
+                   "number of values <= bound; none of the summary statistics; nothing when the limit is 0.",
+    "bounds": {"quick": "statistics: n = 0..3 values, one percentile; rank lemma: n <= 64; histogram: <= 2 items of 1 byte, <= 2 values",
+               "thorough": "statistics: n = 0..4; histogram: <= 3 items, items of 2 bytes"},
+    "outside": ["float64 rounding of sums (math mode); NaN/Inf timer values in the statistics", "n > 4 (statistics), n > 64 (rank lemma: the solvers do not decide larger n within 10 min)",
+                "several percentiles per run (each is computed independently in the loop)",
+                "observation: at exact halves (p=57, n=50: 0.57*50 = 28.499999999999996 in float64) the code rounds down where exact arithmetic rounds half up; both are nearest integers"],
+    "assumptions": STUBS_COMMON + [MATH_NOTE, PF_STUB, TIME_MODEL, "math.Sqrt in math mode: fresh r with r >= 0 and r*r = x"],
+    "jobs": [
+        {"pkg": "./pkg/statsd", "harness": "pkg/statsd", "mode": "math",
+         "entries": {"quick": ["VerifC08_Stats0", "VerifC08_Stats1", "VerifC08_Stats2", "VerifC08_Stats3", "VerifC08_Twin"],
+                     "thorough": ["VerifC08_Stats0", "VerifC08_Stats1", "VerifC08_Stats2", "VerifC08_Stats3", "VerifC08_Stats4", "VerifC08_Twin"]},
+         "reach": {"VerifC08_Stats0": ["empty"], "VerifC08_Stats2": ["percentile", "percentile-omitted"], "VerifC08_Stats3": ["percentile", "percentile-omitted"]},
+         "twin": {"VerifC08_Twin": True},
+         "limits": {"quick": {"timeout": "600s"}, "thorough": {"timeout": "5400s"}}},
+        {"pkg": "./pkg/statsd", "harness": "pkg/statsd", "mode": "machine", "workers": 4, "solver_ms": 60000,
+         "entries": {"quick": ["VerifC08_Rank64"], "thorough": ["VerifC08_Rank64"]},
+         "reach": {"VerifC08_Rank64": ["rank"]},
+         "limits": {"quick": {"timeout": "900s"}, "thorough": {"timeout": "900s"}}},
+        {"pkg": "./pkg/statsd", "harness": "pkg/statsd", "mode": "machine",
+         "entries": {"quick": ["VerifC08_Hist_1_1_1", "VerifC08_Hist_2_1_2", "VerifC08_Hist_2_1_2L1", "VerifC08_Hist_L0"],
+                     "thorough": ["VerifC08_Hist_1_1_1", "VerifC08_Hist_2_1_2", "VerifC08_Hist_2_1_2L1", "VerifC08_Hist_L0", "VerifC08_Hist_2_2_1", "VerifC08_Hist_3_1_2"]},
+         "reach": {"VerifC08_Hist_2_1_2": ["histogram"], "VerifC08_Hist_L0": ["limit-zero"]},
+         "limits": {"quick": {"timeout": "600s"}, "thorough": {"timeout": "1800s"}}},
+    ],
+}
